@@ -446,8 +446,8 @@ impl<'t, 'a> G<'t, 'a> {
         for _ in 0..n {
             let idx = self.spec.nts.len();
             let lits: Vec<usize> = (0..self.spec.terms.len()).filter(|&i| self.spec.terms[i].spell.starts_with('"')).collect();
-            let kind = if self.o.macro_focus && !lits.is_empty() && self.t.chance(150) {
-                4 + self.t.below(2)
+            let kind = if self.o.macro_focus && !lits.is_empty() && self.t.chance(170) {
+                4 + self.t.below(3)
             } else {
                 self.t.below(if lits.is_empty() { 4 } else { 6 })
             };
@@ -527,6 +527,36 @@ impl<'t, 'a> G<'t, 'a> {
                         Act::Default,
                     )],
                 },
+                // T<X, K>: String = several alternatives guarded by different conditions on
+                // the same parameter (different regexes / literals), plus an unconditional one
+                6 => {
+                    let nterms = self.spec.terms.len();
+                    let regexes = ["^[a-c]$", "[b-e]", "^a", "[d-q]$", "^[^ab]", "b|c|p"];
+                    let n_alts = 2 + self.t.below(3);
+                    let mut alts = vec![];
+                    for ai in 0..n_alts {
+                        let lit = lits[self.t.below(lits.len())];
+                        let raw = self.spec.terms[lit].spell.trim_matches('"').to_string();
+                        let (op, rhs) = match self.t.below(4) {
+                            0 => (CondOp::Eq, raw),
+                            1 => (CondOp::Ne, raw),
+                            2 => (CondOp::Match, regexes[self.t.below(regexes.len())].to_string()),
+                            _ => (CondOp::NotMatch, regexes[self.t.below(regexes.len())].to_string()),
+                        };
+                        alts.push(AltSpec {
+                            cond: Some(Cond { param: 1, op, rhs }),
+                            ..AltSpec::new(
+                                vec![SymSpec { bind: Bind::Choose, kind: SymKind::Param(0) }, SymSpec::plain(SymKind::T((idx + ai) % nterms))],
+                                Act::User { fallible: false, style: Style::Angle },
+                            )
+                        });
+                    }
+                    alts.push(AltSpec::new(
+                        vec![SymSpec { bind: Bind::Choose, kind: SymKind::Param(0) }],
+                        Act::User { fallible: false, style: Style::Angle },
+                    ));
+                    NtSpec { name: format!("Mt{idx}"), public: false, inline: false, ty: Some(Ty::Str), params: vec!["X".into(), "K".into()], cfg: vec![], alts }
+                }
                 // C<X, K>: String = { <X> sep if K == "lit" => .., <X> if K != "lit" => .. }
                 _ => {
                     let lit = lits[self.t.below(lits.len())];
